@@ -58,8 +58,11 @@ def run(tier, opts):
             ck.violation(f"replay:{b}:{rc['strategy']}:{rc['cfgdev']}",
                          f"[{b}] strategy {rc['strategy']} / declaration {rc['cfgdev']}: " + r["why"], r)
         ck.extra.setdefault("proofs_verified", {})[b] = summ["cases"]
-        common.validate_trace(ck, "Trace_Stark", trace, f"[{b}] whole-verifier trace", f"trace:{b}", timeout=3600,
-                              keyfn=lambda case, bad: f"trace:{b}:{bad.get('ev')}:{case[0]['case']['recipe']['strategy']}:{case[0]['case']['recipe']['cfgdev']}")
+        ok = common.validate_trace(ck, "Trace_Stark", trace, f"[{b}] whole-verifier trace", f"trace:{b}", timeout=3600,
+                                   keyfn=lambda case, bad: f"trace:{b}:{bad.get('ev')}:{case[0]['case']['recipe']['strategy']}:{case[0]['case']['recipe']['cfgdev']}")
+        if ok and (opts.get("selftest") or tier == "thorough") and b == vf.DEFAULT_BUILD:
+            common.selftest_trace(ck, "Trace_Stark", trace, [("absorb", "msg"), ("absorb", "before"), ("squeeze", "counter"), ("oods", "claimed"), ("oods", "point"), ("queries", "out"), ("points", "pts"),
+                                                             ("pow", "pre1"), ("st.seed", "digest"), ("proof", "c_comp"), ("proof", "nonce"), ("st.commit_ok", None), ("absorb", None), ("tc.begin", "values")])
     for r in recipes:
         ck.case(json.dumps([r["strategy"], r["cfgdev"]]), not r["trace_ok"])
     for r in [x for x in recipes if x["cfgdev"] == "none"][:4]:
